@@ -97,7 +97,10 @@ Proof.
       apply (step_top c t (TU1 p d ovr spin yc) rest [] true); auto; top_side.
       destruct (N.eq_dec p0 p) as [->|Hne]; [right; split; congruence|left; apply O1; assumption]. }
     apply (step_top c t (TU1 p d ovr spin yc) rest [TU2 p d ovr spin yc _ _]); auto; top_side.
-    cbn [fr_ok] in S2. rewrite S2. cbn [andb]. rewrite andb_true_r. apply negb_true_iff, flag_eqb_neq. assumption.
+    cbn [fr_ok] in S2. rewrite S2. cbn [andb]. rewrite andb_true_r. rewrite Fd. cbn [negb].
+    apply flag_eqb_neq in Ff. rewrite Ff. cbn [negb andb].
+    destruct ovr; [rewrite !andb_true_iff in S2; destruct S2 as [_ S2]; discriminate S2|].
+    cbn [negb andb orb] in Fn |- *. rewrite Fn. reflexivity.
 Qed.
 
 Lemma step_TU2 c t p d ovr spin yc f hd rest alt : Inv c -> th_stk (gett c t) = TU2 p d ovr spin yc f hd :: rest ->
@@ -113,7 +116,9 @@ Proof.
   pose proof (i_wf _ I) as Hwf.
   destruct (alt || negb (word_eq f hd (getp c p))) eqn:Ec.
   { apply (step_top c t (TU2 p d ovr spin yc f hd) rest [TU1 p d ovr spin yc]); auto; top_side; try stk_ok_top.
-    cbn [fr_ok] in S2 |- *. apply andb_prop in S2 as [S2 _]. rewrite S2. reflexivity. }
+    destruct (tu_frame_facts c t p d _ S2) as (X1 & X2 & X3); [right; eauto 8|]. cbn [fr_ok forallb].
+    apply flag_eqb_neq in X2. apply flag_eqb_neq in X3. rewrite X1, X2, X3.
+    cbn [fr_ok] in S2. rewrite !andb_true_iff in S2. destruct S2 as [[[[_ S2] _] _] _]. rewrite S2. reflexivity. }
   apply orb_false_iff in Ec as [_ Ec]. apply negb_false_iff in Ec. pose proof (word_eq_flag _ _ _ Ec) as Ef.
   destruct (pop_TU_true c t _ p spin rest I E) as (O1 & O2 & O3 & O4); [split; reflexivity|congruence|].
   apply (step_top_word c t (TU2 p d ovr spin yc f hd) rest [] true p d (pg_tf (getp c p)));
